@@ -107,6 +107,17 @@ func (q *UnitType) Modality() Modality {
 	return q.Mode
 }
 
+// An operand that is itself an operator application (output, input or shift) is printed in
+// parentheses when it is the left operand of * or -*: the grammar makes these operators right
+// associative, so without the parentheses (A * B) * C and A * (B * C) would print identically.
+func stringifyLeftOperand(t SessionType, printed string) string {
+	switch t.(type) {
+	case *SendType, *ReceiveType, *UpType, *DownType:
+		return "(" + printed + ")"
+	}
+	return printed
+}
+
 // Send: A * B
 type SendType struct {
 	Left  SessionType
@@ -125,7 +136,7 @@ func NewSendType(left, right SessionType, mode Modality) *SendType {
 func (q *SendType) String() string {
 	var buffer bytes.Buffer
 	// buffer.WriteString("(")
-	buffer.WriteString(q.Left.String())
+	buffer.WriteString(stringifyLeftOperand(q.Left, q.Left.String()))
 	buffer.WriteString(" * ")
 	buffer.WriteString(q.Right.String())
 	// buffer.WriteString(")")
@@ -134,7 +145,7 @@ func (q *SendType) String() string {
 
 func (q *SendType) StringWithModality() string {
 	var buffer bytes.Buffer
-	buffer.WriteString(q.Left.StringWithModality())
+	buffer.WriteString(stringifyLeftOperand(q.Left, q.Left.StringWithModality()))
 	buffer.WriteString(" [")
 	buffer.WriteString(q.Mode.String())
 	buffer.WriteString("]* ")
@@ -144,7 +155,7 @@ func (q *SendType) StringWithModality() string {
 
 func (q *SendType) StringWithOuterModality() string {
 	var buffer bytes.Buffer
-	buffer.WriteString(q.Left.String())
+	buffer.WriteString(stringifyLeftOperand(q.Left, q.Left.String()))
 	buffer.WriteString(" * ")
 	buffer.WriteString(q.Right.String())
 	buffer.WriteString(" [")
@@ -175,7 +186,7 @@ func NewReceiveType(left, right SessionType, mode Modality) *ReceiveType {
 func (q *ReceiveType) String() string {
 	var buffer bytes.Buffer
 	// buffer.WriteString("(")
-	buffer.WriteString(q.Left.String())
+	buffer.WriteString(stringifyLeftOperand(q.Left, q.Left.String()))
 	buffer.WriteString(" -* ")
 	buffer.WriteString(q.Right.String())
 	// buffer.WriteString(")")
@@ -185,7 +196,7 @@ func (q *ReceiveType) String() string {
 func (q *ReceiveType) StringWithModality() string {
 	var buffer bytes.Buffer
 	// buffer.WriteString("(")
-	buffer.WriteString(q.Left.StringWithModality())
+	buffer.WriteString(stringifyLeftOperand(q.Left, q.Left.StringWithModality()))
 	buffer.WriteString(" [")
 	buffer.WriteString(q.Mode.String())
 	buffer.WriteString("]-* ")
@@ -196,7 +207,7 @@ func (q *ReceiveType) StringWithModality() string {
 
 func (q *ReceiveType) StringWithOuterModality() string {
 	var buffer bytes.Buffer
-	buffer.WriteString(q.Left.String())
+	buffer.WriteString(stringifyLeftOperand(q.Left, q.Left.String()))
 	buffer.WriteString(" -* ")
 	buffer.WriteString(q.Right.String())
 	buffer.WriteString(" [")
